@@ -16,7 +16,17 @@ pub fn arith<T: Subj>(tier: Tier) -> Plan<T> {
             // quick: every 16-bit value against a reduced boundary set (FULL^2 is the thorough tier)
             let mut b = sets::grid(w, n, 10);
             b.extend(sets::smalls(2));
-            ("FULL x GRID", sets::full(16), sets::dedup(b))
+            if w == 8 {
+                // u8 digits: every single-digit value in the low and in the high position, so that every
+                // (two-digit) x (one-digit) interaction is enumerated for every digit value
+                for v in 0..=255u8 {
+                    b.push(vec![v, 0]);
+                    if v % 8 == 5 || v < 4 || v > 251 || (0x7e..=0x81).contains(&v) {
+                        b.push(vec![0, v]);
+                    }
+                }
+            }
+            ("FULL x (GRID + every single-digit value)", sets::full(16), sets::dedup(b))
         }
     } else {
         ("GRID^2", st.clone(), st.clone())
@@ -114,6 +124,13 @@ pub fn root_values(bits: u32, signed: bool) -> Vec<Vec<u8>> {
 /// log bases
 pub fn log_bases(bits: u32, w: u32) -> Vec<BigRef> {
     let mut v: Vec<BigRef> = [0i128, 1, 2, 3, 4, 5, 7, 8, 10, 16, 100, 255, 256, 1000].iter().map(|x| big(*x)).collect();
+    // small bases with one more non-zero digit above them (second digit / top digit)
+    for s in [2i128, 3, 7, 10] {
+        v.push(BigRef::pow2(w as u64).add(&big(s)));
+        if bits > 2 * w {
+            v.push(BigRef::pow2((bits - w) as u64).add(&big(s)));
+        }
+    }
     for k in [w as u64, (bits / 2) as u64, bits as u64 - 1] {
         let p = BigRef::pow2(k);
         v.push(p.sub(&big(1)));
